@@ -153,6 +153,11 @@ pub struct QuerySpec {
     /// which the newest upstream TCP reply is 120 seconds old
     #[serde(default)]
     pub tcp_idle_off: Option<i64>,
+    /// pipeline shape: queries with the same group number share one client TCP connection.
+    /// mode 0: all frames written back to back when the first is due; mode 1: each next
+    /// query is written 5 ms after the response to the previous one arrived
+    #[serde(default)]
+    pub conn: Option<(u32, u8)>,
 }
 
 #[derive(Clone, Debug, Serialize, Deserialize)]
@@ -385,6 +390,9 @@ fn label(r: &mut Rng) -> String {
 pub fn generate(seed: u64, g: &GenB) -> PlanB {
     if g.shape == "flood" || g.shape == "cookie" {
         return generate_flood(seed, g.shape == "cookie");
+    }
+    if g.shape == "manyflood" {
+        return generate_manyflood(seed);
     }
     let mut r = Rng::new(seed, "plan-b");
     let shape = g.shape;
@@ -675,6 +683,7 @@ pub fn generate(seed: u64, g: &GenB) -> PlanB {
             after_faults: false,
             ttl_boundary: None,
             tcp_idle_off: None,
+            conn: None,
         });
     }
     if faulty && !p.queries.is_empty() {
@@ -712,6 +721,9 @@ pub fn generate(seed: u64, g: &GenB) -> PlanB {
     if shape == "tcpidle" {
         add_tcp_idle_followups(&mut p, &mut r);
     }
+    if shape == "pipeline" {
+        add_pipelines(&mut p, &mut r);
+    }
     {
         /* knobs added later draw from their own stream, so that older seeds keep their plans */
         let mut k = Rng::new(seed, "plan-b-knobs2");
@@ -724,6 +736,35 @@ pub fn generate(seed: u64, g: &GenB) -> PlanB {
     }
     p.queries.sort_by_key(|q| q.at_ms);
     p
+}
+
+/// The pipeline shape: several queries of one client over one TCP connection (RFC 7766),
+/// written back to back or one after the other.
+fn add_pipelines(p: &mut PlanB, r: &mut Rng) {
+    p.out_loss_p = 0.0;
+    let n = p.queries.len();
+    let mut i = 0;
+    let mut gid = 0u32;
+    while i < n {
+        let len = (r.range(1, 4) as usize).min(n - i);
+        if len >= 2 {
+            gid += 1;
+            let mode = r.below(2) as u8;
+            let (ip, port, dst, at) = (p.queries[i].src_ip, p.queries[i].src_port, p.queries[i].dst, p.queries[i].at_ms);
+            for (k, q) in p.queries[i..i + len].iter_mut().enumerate() {
+                q.tcp = true;
+                q.src_ip = ip;
+                q.src_port = port;
+                q.dst = dst;
+                q.at_ms = at;
+                q.id = (q.id & 0xfff0) | k as u16; /* distinct within the connection */
+                q.tcp_split = vec![];
+                q.dup_in = false;
+                q.conn = Some((gid, mode));
+            }
+        }
+        i += len;
+    }
 }
 
 /// The tcpidle shape: everything goes to the upstreams over TCP and is answered quickly;
@@ -814,6 +855,68 @@ fn add_cache_followups(p: &mut PlanB, r: &mut Rng) {
 }
 
 /// C16: floods of refused queries, quiet sources, and cookie exemptions.
+/// C16: hundreds of refused sources flood at once (the situation the limiter exists
+/// for); then a source that has never sent anything asks once, and after a silence longer
+/// than the refill period one of the flooders asks once more.
+pub fn generate_manyflood(seed: u64) -> PlanB {
+    let mut r = Rng::new(seed, "plan-b-manyflood");
+    let mut p = generate_flood(seed, false);
+    p.shape = "manyflood".into();
+    let template = p.queries[0].clone();
+    p.queries.clear();
+    p.clock_jumps.clear();
+    let nflood = *r.pick(&[20usize, 100, 300, 500]);
+    let per = r.range(6, 14);
+    let mut t = 2_000u64;
+    let mut port = 1100u16;
+    let mut srcs = vec![];
+    for i in 0..nflood {
+        let src = IpAddr::V4(Ipv4Addr::new(198, 18, (i / 250) as u8, (i % 250) as u8 + 1));
+        srcs.push(src);
+        for k in 0..per {
+            let mut q = template.clone();
+            q.at_ms = t;
+            t += 1;
+            q.src_ip = src;
+            port = if port >= 60000 { 1100 } else { port + 1 };
+            q.src_port = port;
+            q.id = r.below(65536) as u16;
+            q.qname = Name::parse(&format!("m{}x{}.example", i, k));
+            q.flood = true;
+            q.quiet_probe = false;
+            p.queries.push(q);
+        }
+    }
+    /* a source nobody has heard of */
+    t += 3_000;
+    for j in 0..3u8 {
+        let mut q = template.clone();
+        q.at_ms = t + j as u64 * 10;
+        q.src_ip = IpAddr::V4(Ipv4Addr::new(203, 0, 113, r.range(1, 250) as u8));
+        q.src_port = 900 + j as u16;
+        q.id = r.below(65536) as u16;
+        q.qname = Name::parse(&format!("fresh{}.example", j));
+        q.flood = false;
+        q.quiet_probe = true;
+        if !p.queries.iter().any(|o| o.src_ip == q.src_ip) {
+            p.queries.push(q);
+        }
+    }
+    /* after everybody has been silent for longer than the refill period */
+    t += 700_000;
+    let mut q = template.clone();
+    q.at_ms = t;
+    q.src_ip = *r.pick(&srcs);
+    q.src_port = 950;
+    q.id = r.below(65536) as u16;
+    q.qname = Name::parse("after-silence.example");
+    q.flood = false;
+    q.quiet_probe = true;
+    p.queries.push(q);
+    p.queries.sort_by_key(|q| q.at_ms);
+    p
+}
+
 pub fn generate_flood(seed: u64, cookie: bool) -> PlanB {
     let mut r = Rng::new(seed, "plan-b-flood");
     let mut p = generate(seed ^ 0x55aa, &GenB { shape: "floodbase", thorough: false });
@@ -851,6 +954,7 @@ pub fn generate_flood(seed: u64, cookie: bool) -> PlanB {
         after_faults: false,
         ttl_boundary: None,
             tcp_idle_off: None,
+            conn: None,
     };
     let mut port = 1024u16;
     let mut next_port = || {
